@@ -244,6 +244,8 @@ func oracleRotate(in, outp string) {
 		slack := new(big.Rat).SetFrac64(life, 1<<50)
 		slack.Add(slack, big.NewRat(2, 1))
 		strict := life >= 0 && o.jq.Sign() >= 0 && margin.Cmp(slack) >= 0
+		wide := new(big.Rat).Add(slack, new(big.Rat).SetInt64(int64(time.Second)))
+		strictWide := strict && margin.Cmp(wide) >= 0
 		func() {
 			defer func() {
 				if recover() != nil {
@@ -258,6 +260,9 @@ func oracleRotate(in, outp string) {
 					verdict = "late d=" + strconv.FormatInt(ob.d, 10) + ",now=" + strconv.FormatInt(ob.w0, 10) + " " + wire.Enc(join(t))
 				case life >= 0 && ob.w0 >= o.eOff && ob.d > 0:
 					verdict = "late-after-expiry d=" + strconv.FormatInt(ob.d, 10) + ",now=" + strconv.FormatInt(ob.w0, 10) + " " + wire.Enc(join(t))
+				case strictWide && ob.d > 0 && ob.w1-ob.w0 < int64(500*time.Millisecond) && ob.w1+ob.d >= o.eOff:
+					// margin of at least 1 s and the call took < 0.5 s: now + delay <= w1 + delay must be before expire
+					verdict = "not-strict d=" + strconv.FormatInt(ob.d, 10) + ",now<=" + strconv.FormatInt(ob.w1, 10) + " " + wire.Enc(join(t))
 				case strict && ob.d > 0 && ob.w0+ob.d >= o.eOff:
 					verdict = "not-strict d=" + strconv.FormatInt(ob.d, 10) + ",now=" + strconv.FormatInt(ob.w0, 10) + " " + wire.Enc(join(t))
 				}
